@@ -53,6 +53,8 @@ MODELS.append(('double pendulum whose lower body has a hinge followed by a sprin
                [dict(parent=-1, joints=H), dict(parent=0, joints=H + S)], False))
 MODELS.append(('two trees: a free body listed before a sprung fixed-base double pendulum',
                [dict(parent=-1, joints=F), dict(parent=-1, joints=H), dict(parent=1, joints=H)], False))
+MODELS.append(('two trees: a sprung fixed-base pendulum listed BEFORE a free body with a sprung flap',
+               [dict(parent=-1, joints=H), dict(parent=-1, joints=F), dict(parent=1, joints=H)], False))
 MODELS_THOROUGH = [
     ('free-floating chain with a hinge-slide stack', [dict(parent=-1, joints=F), dict(parent=0, joints=H + S), dict(parent=1, joints=H)], True),
     ('world-attached slide-hinge stack with a hinge child', [dict(parent=-1, joints=S + H), dict(parent=0, joints=H)], False),
